@@ -180,7 +180,7 @@ func cmdCheck(args []string) int {
 		return 2
 	}
 	prog.curProp = *prop
-	timeout := 20 * time.Second
+	timeout := 30 * time.Second
 	if *tier == "thorough" {
 		timeout = 90 * time.Second
 	}
